@@ -24,11 +24,12 @@ func (h *Hub) HandleConnectionClosed(connection api.ShipConnectionInterface, han
 	// only remove this connection if it is the registered one for the ski!
 	// as we can have double connections but only one can be registered
 	if existingC := h.connectionForSKI(remoteSki); existingC != nil {
-		if existingC.DataHandler() == connection.DataHandler() {
-			h.muxCon.Lock()
-			delete(h.connections, connection.RemoteSKI())
-			h.muxCon.Unlock()
+		// compare and delete in one step, a newer connection may get registered in between
+		h.muxCon.Lock()
+		if registeredC, ok := h.connections[remoteSki]; ok && registeredC.DataHandler() == connection.DataHandler() {
+			delete(h.connections, remoteSki)
 		}
+		h.muxCon.Unlock()
 
 		// connection close was after a completed handshake, so we can reset the attetmpt counter
 		if handshakeCompleted {
